@@ -26,12 +26,12 @@ def run_w(ctx, prop, plan, rule, level="model_checking", extra_assumptions=(), b
             k = ctx.seed % max(1, len(scens))
             scens = scens[k:] + scens[:k]
             allsc.extend(scens)
-            for scen in scens:
-                if block.get("kills") is not None:
+            if block.get("kills") is not None:
+                for scen in scens:
                     S.explore_kills(scen, policy=block.get("policies", ("FIFO",))[0], base_schedules=block["kills"].get("bases", ({},)),
                                     restart_bound=block["kills"].get("restart_bound", 0))
-                else:
-                    S.explore(scen, block.get("policies", ("FIFO",)), block["bound"], cap=block.get("cap"))
+            else:
+                S.explore_block(scens, block.get("policies", ("FIFO",)), block["bound"], cap=block.get("cap"))
         cov = coverage(S, allsc, rule)
     for p, key, msg, payload in S.violations:
         if p == prop:
